@@ -52,7 +52,7 @@ def write_replay(pid, name, witness):
 
 
 def write_evidence(pid, tier, seed, level, coverage, assumptions, wall_s, violations, extra=None):
-    d = os.path.join(ROOT, "evidence")
+    d = os.path.join(ROOT, "evidence-dev" if os.environ.get("SHROUD_VERIF_DEVREPO") else "evidence")
     os.makedirs(d, exist_ok=True)
     ev = {
         "property_id": pid,
